@@ -20,6 +20,7 @@ PROP = "C12"
 TOL = 1e-6
 TOL_CLASS = {"OPA": 1e-4}     # OPA inverts the square root of the lag-0 covariance of the PCs: conditioning
 TOL_S1 = 1e-12
+SIGN_FREE = ("SparsePCA", "OPA")   # classes that fix no sign: SparsePCA (none at all), OPA (flip_signs=False)
 
 SINGLE = ["EOF", "EOF", "EOF", "ExtendedEOF", "OPA", "POP", "SparsePCA"]
 CROSS = ["MCA", "MCA", "CCA", "RDA", "CPCCA", "CPCCA"]
@@ -42,8 +43,17 @@ def generate(seed: int, tier: str = "quick") -> dict:
         lay.update(max_features=4, min_samples=8, max_samples=10)
     chunks = space.draw_chunks(rng, tiny=tiny)
     descs = {}
+
+    def condition(d):
+        # dask's svd_compressed as configured by xeofs (4 power iterations without re-orthonormalisation)
+        # is accurate to about eps * kappa**9 only (measured); C12 allows "the accuracy of the randomised
+        # solver", so the data of this machine has a flat, full-rank spectrum and a small mean
+        d["ratio"] = rng.choice([0.8, 0.85, 0.9])
+        d["noise"] = 0.0
+        d["offset"] = rng.choice([0.0, 0.5, 1.0]) * d.get("scale", 1.0)
+        return d
     if fam == "single":
-        d = space.draw_layout(rng, **lay)
+        d = condition(space.draw_layout(rng, **lay))
         if spec.time_ordered:
             d["sample"] = d["sample"][:1]
             d["sample"][0][1] = max(d["sample"][0][1], 18)
@@ -67,8 +77,8 @@ def generate(seed: int, tier: str = "quick") -> dict:
                 params["embedding"] = 2
                 params["n_pca_modes"] = min(4, models._rank(d))
     else:
-        dx = space.draw_layout(rng, **lay)
-        dy = space.paired_layout(rng, dx, **lay)
+        dx = condition(space.draw_layout(rng, **lay))
+        dy = condition(space.paired_layout(rng, dx, **lay))
         descs["X0"], descs["Y0"] = dx, dy
         k = rng.randrange(1, 2 ** 31)
         descs["NX0"] = space.new_for(seeds.stream(k, "n"), dx, "disjoint")
@@ -92,7 +102,18 @@ def generate(seed: int, tier: str = "quick") -> dict:
         chunks = {"mode": rng.choice(["single", "sample", "sample"]), "n": chunks["n"]}
         if whiten:      # several variables / list items become several chunks along the stacked feature dim
             for k in ("X0", "Y0", "NX0", "NY0"):
-                descs[k]["container"] = "da"
+                dd = descs[k]
+                if dd["container"] != "da":
+                    dd["container"] = "da"
+                    # keep the largest field, with at least three features (two standardised features are
+                    # the degenerate +-45 degree family)
+                    best = max(dd["fields"], key=lambda f: int(np.prod([x[1] for x in f])))
+                    best = copy.deepcopy(best)
+                    if int(np.prod([x[1] for x in best])) < 3:
+                        best[0][1] = 3
+                    dd["fields"] = [best]
+            for a_, b_ in (("X0", "NX0"), ("Y0", "NY0")):
+                descs[b_]["fields"] = copy.deepcopy(descs[a_]["fields"])
             # fewer features now: keep the mode counts valid
             rk = [max(2, models._rank(descs["X0"])), max(2, models._rank(descs["Y0"]))]
             npm = params["n_pca_modes"] if isinstance(params["n_pca_modes"], list) else [params["n_pca_modes"]] * 2
@@ -158,7 +179,7 @@ def _cnew(new):
 def _signfree(spec, qs):
     """SparsePCA defines no sign convention: the dask and numpy routes may legitimately differ by the sign
     of whole modes, so score arrays fed to inverse_transform must be sign-equivariant (no offset)."""
-    if spec.name != "SparsePCA":
+    if spec.name not in SIGN_FREE:
         return qs
     out = []
     for q in qs:
@@ -211,6 +232,18 @@ def _fragile(model) -> str | None:
             if s.size and s[-1] < 1e-7 * s[0]:
                 return f"{key} has a numerically zero mode"
     return None
+
+
+def _kappa(model) -> float:
+    """Largest over smallest retained singular value reported by the reference."""
+    k = 1.0
+    for key in ("norms", "singular_values"):
+        arr = getattr(model, "data", {}).get(key) if hasattr(model, "data") else None
+        if isinstance(arr, xr.DataArray) and arr.ndim == 1 and arr.size > 1:
+            v = np.abs(np.asarray(arr.values, dtype=float))
+            if np.all(np.isfinite(v)) and v.min() > 0:
+                k = max(k, float(v.max() / v.min()))
+    return k
 
 
 def _pop_invariants(m, env, fit_id):
@@ -286,6 +319,11 @@ def execute(cfg: dict, *, stop_at_first=True, trace=False) -> RunResult:
                         f"fit on dask-backed data -> {sout.kind()} {sout.exc_msg[:200]!r}; on the same data in memory -> {rout.kind()} {rout.exc_msg[:120]!r}", "fit")
             live = sout.ok and rout.ok and not res.violations
             frag = _fragile(ref) if live else None
+            kappa = _kappa(ref) if live else 1.0
+            kappa_tol = 1e3 * np.finfo(float).eps * kappa ** 9      # accuracy of the randomised solver
+            counts["kappa_max"] = round(float(kappa), 2)
+            if kappa_tol > 1e-3 and not frag:
+                frag = f"spectrum of the retained modes too steep for the randomised solver (kappa={kappa:.1f})"
 
             def laziness(obj, calls, what):
                 counts["laziness_verdicts"] += 1
@@ -379,8 +417,8 @@ def execute(cfg: dict, *, stop_at_first=True, trace=False) -> RunResult:
                     counts["relaxed"] += 1
                     probes.add("near-tie relaxation used")
                     return
-                relax = {"sign": True} if spec.name == "SparsePCA" else None   # the class defines no sign convention
-                tol = TOL_CLASS.get(spec.name, TOL)
+                relax = {"sign": True} if spec.name in SIGN_FREE else None   # the class defines no sign convention
+                tol = max(TOL_CLASS.get(spec.name, TOL), kappa_tol)
                 diffs = oracle.compare(got, want, tol, path=_qname(q), relax=relax)
                 if diffs:
                     sym = core.symptom_of(diffs)
